@@ -104,7 +104,7 @@ BIG_V = 16             # vocabularies beyond this: rows with pairwise DISTINCT l
 def safe_rows(V, qbits, kind):
     """A fixed pseudo-random table of logit rows per (V, qbits, kind).
     kind: "plain" | "zeros" (every row has at least one -inf and one finite entry) |
-    ("favour", e) (entry e is 0, the others are <= -3). Deterministic; cached.
+    ("favour", e) (entry e is 0, the others are <= -3) | ("without", e) (entry e is -inf). Deterministic; cached.
     V <= 16: multiples of 1/64 in [-6, 0], 6000 candidate rows. Larger vocabularies (size classes): 192
     candidate rows whose V logits are pairwise different multiples of 1/64 in [-max(385, 3V)/64, 0] (with 385
     values for a thousand tokens every row would be full of exact ties).
@@ -116,7 +116,8 @@ def safe_rows(V, qbits, kind):
     key = (V, qbits, kind)
     if key in _rows_cache:
         return _rows_cache[key]
-    rs = np.random.RandomState(977 + 31 * V + (0 if kind == "plain" else 7 if kind == "zeros" else 13 + kind[1]))
+    rs = np.random.RandomState(977 + 31 * V + (0 if kind == "plain" else 7 if kind == "zeros" else
+                                               13 + kind[1] if kind[0] == "favour" else 5003 + kind[1]))
     big = V > BIG_V
     n = 192 if big else 6000
 
@@ -125,15 +126,17 @@ def safe_rows(V, qbits, kind):
             return rs.randint(0, hi, size=(n, V)).astype("float64")
         R = max(hi, 3 * V)      # a sample of V different values out of R, per row
         return rs.rand(n, R).argsort(1)[:, :V].astype("float64")
-    if kind in ("plain", "zeros"):
+    if kind in ("plain", "zeros") or kind[0] == "without":
         rows = -draw(385) / 64.0
+    if kind[0] == "without":
+        rows[:, kind[1]] = float("-inf")        # token e impossible (V >= 2)
     if kind == "zeros":
         mask = rs.rand(n, V) < 0.4
         mask[np.arange(n), rs.randint(0, V, size=n)] = True
         mask[mask.all(1)] = False          # never a row without a finite entry
         rows[mask] = float("-inf")
         rows = rows[np.isinf(rows).any(1) & ~np.isinf(rows).all(1)]
-    elif kind != "plain":
+    elif kind[0] == "favour":
         e = kind[1]
         rows = -3.0 - draw(193) / 64.0
         rows[:, e] = 0.0
@@ -203,6 +206,17 @@ def _hash_lm(V, qbits, opts, salt=0, dtype="float32", delta=None):
                 if self.zrows is not None:
                     z = self.zrows.index_select(0, (sel // 7) % self.zrows.size(0))
                     logits = torch.where(((sel // 3) % 3 == 0).unsqueeze(1), z, logits)
+            late = (ctx[:, 2] > i) if opts.get("eos_late") and not opts.get("uniform") else None
+            if late is not None and bool(late.any()):
+                # eos is impossible before the depth from which it is forced (searches that run for dozens of
+                # steps without a step limit): rows from the table whose entry e is -inf
+                e = ctx[:, 3].clamp(0, V - 1)
+                wl = torch.zeros((hist.size(1), V), dtype=torch.float32)
+                for ev in sorted(set(int(x) for x in e[late])):
+                    m = e == ev
+                    wr = safe_rows(V, qbits, ("without", ev))
+                    wl[m] = wr.index_select(0, sel[m] % wr.size(0))
+                logits = torch.where(late.unsqueeze(1), wl, logits)
             force = (ctx[:, 2] >= 0) & (ctx[:, 2] <= i)
             if bool(force.any()):
                 e = ctx[:, 3].clamp(0, V - 1)
@@ -311,6 +325,10 @@ def _rec_lm(V, opts):
                 logits = logits + h[:, j:j + 1] * self.out[j]
             if opts.get("scale"):
                 logits = logits * float(opts["scale"])
+            if opts.get("eos_late"):
+                late = (ctx[:, 2] > i).unsqueeze(1) & torch.zeros((hist.size(1), V), dtype=torch.bool).scatter_(
+                    1, ctx[:, 3].clamp(0, V - 1).unsqueeze(1), True)
+                logits = torch.where(late, torch.full_like(logits, float("-inf")), logits)
             force = (ctx[:, 2] >= 0) & (ctx[:, 2] <= i)
             if bool(force.any()):
                 e = ctx[:, 3].clamp(0, V - 1)
